@@ -62,6 +62,11 @@ func resourceInfoToK8sObject(info *resource.Info, l logger.Logger, muteErrsAndWa
 		resObject.Kind = unstructuredObj.GetKind()
 		var err error
 		objField := resObject.getEmptyInitializedFieldObjByKind(resObject.Kind)
+		if objField != nil && !isAPIGroupOfKind(unstructuredObj.GroupVersionKind().Group, resObject.Kind) {
+			// a resource of another API that has the name of a supported kind (e.g. a projectcalico.org or crd.antrea.io
+			// NetworkPolicy): its fields have other meanings, it is not the Kubernetes resource
+			objField = nil
+		}
 		if objField == nil {
 			l.Infof("in file: %s, skipping object with type: %s", info.Source, resObject.Kind)
 			return nil, nil
@@ -90,6 +95,24 @@ func resourceInfoToK8sObject(info *resource.Info, l logger.Logger, muteErrsAndWa
 	}
 
 	return &resObject, nil
+}
+
+// the API groups that define the supported kinds (Kubernetes, the network-policy-api and OpenShift routes)
+var apiGroupsOfKinds = map[string]bool{"": true, "apps": true, "batch": true, "extensions": true, "networking.k8s.io": true,
+	"policy.networking.k8s.io": true, "route.openshift.io": true}
+
+// isAPIGroupOfKind returns true if the given API group is one in which the given supported kind is defined
+func isAPIGroupOfKind(group, kind string) bool {
+	switch kind {
+	case NetworkPolicy, NetworkPolicyList, Ingress:
+		return group == "networking.k8s.io" || group == "extensions"
+	case AdminNetworkPolicy, AdminNetworkPolicyList, BaselineAdminNetworkPolicy, BaselineAdminNetworkPolicyList:
+		return group == "policy.networking.k8s.io"
+	case Route:
+		return group == "route.openshift.io"
+	default:
+		return apiGroupsOfKinds[group]
+	}
 }
 
 // error for resource with kind: , name: ,namespace: ,
